@@ -10,6 +10,7 @@ import (
 	"path"
 	"reflect"
 	"sort"
+	"strings"
 	"sync"
 	"testing"
 	"time"
@@ -177,7 +178,11 @@ func pinnedCutReachable(uncut *zoekt.ChunkMatch, m int, got []byte) bool {
 }
 
 // checkPrefix: got is the beginning of the unlimited ranked result ref.
-func checkPrefix(docs map[string]*kit.Doc, ref, got []zoekt.FileMatch, c *c22Case, what string, oneShot func() []zoekt.FileMatch) (cutInside bool, err error) {
+// arrival (nil for the aggregation layer, where the harness itself feeds the
+// searcher's aggregation) reports whether got is what that aggregation returns
+// for SOME arrival order of the per-shard results; the known finding about
+// truncated partial aggregates is only claimed for such results.
+func checkPrefix(docs map[string]*kit.Doc, ref, got []zoekt.FileMatch, c *c22Case, what string, oneShot func() []zoekt.FileMatch, arrival func([]zoekt.FileMatch) bool) (cutInside bool, err error) {
 	if c.MaxDocs > 0 && len(got) > c.MaxDocs {
 		return false, kit.Fail("too-many-files", "%s: %d files returned with MaxDocDisplayCount=%d", what, len(got), c.MaxDocs)
 	}
@@ -207,7 +212,7 @@ func checkPrefix(docs map[string]*kit.Doc, ref, got []zoekt.FileMatch, c *c22Cas
 		if err != nil {
 			if d, ok := err.(*kit.Discrepancy); ok {
 				d.Detail = what + ": " + d.Detail
-				if d.Kind == "cut-not-last" && oneShot != nil {
+				if d.Kind == "cut-not-last" && oneShot != nil && (arrival == nil || arrival(got)) {
 					// A file cut by the truncation of a partial aggregate stays
 					// cut when later results rank below it. Attribute to that
 					// known finding only if ranking and truncating all
@@ -252,7 +257,7 @@ func checkPrefix(docs map[string]*kit.Doc, ref, got []zoekt.FileMatch, c *c22Cas
 		known := ""
 		// Attribute to the incremental truncation of partial aggregates only if
 		// ranking and truncating all per-shard results at once gives a valid top.
-		if oneShot != nil {
+		if oneShot != nil && (arrival == nil || arrival(got)) {
 			if alt := oneShot(); validTop(ref, alt) {
 				known = "C22-partial-aggregate-truncation"
 			}
@@ -401,7 +406,52 @@ func runC22(rec *kit.Recorder, c c22Case) error {
 			l := lim
 			return index.SortAndTruncateFiles(all, &l)
 		}
-		cutInside, err := checkPrefix(docs, ref.Files, got.Files, &c, what+" (aggregation)", oneShot)
+		// is a result what the real aggregation gives for some arrival order?
+		arrival := func(res []zoekt.FileMatch) bool {
+			sig := func(fs []zoekt.FileMatch) string {
+				var ks []string
+				for i := range fs {
+					n := normFile(fs[i])
+					ks = append(ks, fmt.Sprintf("%s|%+v|%+v", kit.Key(fs[i].Repository, fs[i].FileName, fs[i].Checksum), n.LineMatches, n.ChunkMatches))
+				}
+				sort.Strings(ks)
+				return strings.Join(ks, "\n")
+			}
+			want := sig(res)
+			n := len(e.built.Shards)
+			if n > 5 {
+				return false
+			}
+			perm := make([]int, n)
+			for i := range perm {
+				perm[i] = i
+			}
+			var try func(k int) bool
+			try = func(k int) bool {
+				if k == n {
+					fresh, err := perShard(e.built.Shards, q, lim)
+					if err != nil {
+						return false
+					}
+					ord := make([]*zoekt.SearchResult, n)
+					for i, p := range perm {
+						ord[i] = fresh[p]
+					}
+					l := lim
+					return sig(search.VerifAggregate(&l, ord).Files) == want
+				}
+				for i := k; i < n; i++ {
+					perm[k], perm[i] = perm[i], perm[k]
+					if try(k + 1) {
+						return true
+					}
+					perm[k], perm[i] = perm[i], perm[k]
+				}
+				return false
+			}
+			return try(0)
+		}
+		cutInside, err := checkPrefix(docs, ref.Files, got.Files, &c, what+" (aggregation)", oneShot, nil)
 		if err != nil {
 			return err
 		}
@@ -420,7 +470,7 @@ func runC22(rec *kit.Recorder, c c22Case) error {
 		if err != nil {
 			return kit.Fail("search-error", "%s: %v", what, err)
 		}
-		if _, err := checkPrefix(docs, sref.Files, sres.Files, &c, what+" (Search)", oneShot); err != nil {
+		if _, err := checkPrefix(docs, sref.Files, sres.Files, &c, what+" (Search)", oneShot, arrival); err != nil {
 			return err
 		}
 		// streaming: counts within limits, every file from the unlimited result, only cut as a prefix
@@ -452,7 +502,7 @@ func runC22(rec *kit.Recorder, c c22Case) error {
 		if err != nil {
 			return kit.Fail("search-error", "%s (stream, flush window): %v", what, err)
 		}
-		if _, err := checkPrefix(docs, sref.Files, flushed, &c, what+" (StreamSearch, FlushWallTime 1h)", oneShot); err != nil {
+		if _, err := checkPrefix(docs, sref.Files, flushed, &c, what+" (StreamSearch, FlushWallTime 1h)", oneShot, arrival); err != nil {
 			return err
 		}
 		rec.Eval(ckey+fmt.Sprintf("|%+v|%d|%d|%v|%d|%v", qs, c.MaxDocs, c.MaxMatches, c.Chunk, c.Context, c.Order), nt,
@@ -518,6 +568,8 @@ func TestVerif_C22(t *testing.T) {
 		c := c22Case{matchCase: genMatchCase(rt, o, kit.DefaultQuery, &labels)}
 		c.Queries = append(c.Queries, kit.QSpec{Op: "substr", Pat: kit.Pick(g, []string{"foo", "a", "o", "e", "needle"}, "broad"), Content: true})
 		c.Queries = append(c.Queries, kit.QSpec{Op: "regex", Pat: kit.Pick(g, []string{"[a-z]+", "o+", "\\w\\w"}, "broadre"), Content: true, CS: true})
+		// matches that span line ends (the cut of a chunk counts lines)
+		c.Queries = append(c.Queries, kit.QSpec{Op: "regex", Pat: kit.Pick(g, []string{"\\w+\\n\\w+", "o\\n+[a-z]", "[a-z]\\s+[a-zA-Z]"}, "multiline"), Content: true, CS: true})
 		c.MaxDocs = kit.Pick(g, []int{0, 1, 2, 3, 4, 5, 6}, "maxdocs")
 		c.MaxMatches = kit.Pick(g, []int{0, 0, 1, 2, 3, 4, 7, 12}, "maxmatches")
 		if c.MaxDocs == 0 && c.MaxMatches == 0 {
